@@ -360,8 +360,11 @@ theorem parseValue_wfvalue (f : Nat) (ts : List Tk) (e : Expr) (r : List Tk) (h 
       split at h
       · cases h
       · rename_i args r2 hs
-        cases h
-        exact ⟨fun hn => hna hn, w.sequence _ _ _ hs⟩
+        split at h
+        · rename_i hfn
+          cases h
+          exact ⟨fun hn => hna hn, hfn, w.sequence _ _ _ hs⟩
+        · cases h
     · -- variable
       rename_i n r' _ hna _
       cases h
